@@ -598,6 +598,17 @@ func runV1Chain(b *harness.B) {
 				rev.FileContract.FileMerkleRoot = randHash(r)
 				rev.FileContract.RevisionNumber++
 				ops = append(ops, "write")
+				if mo := rev.FileContract.MissedProofOutputs; r.IntN(3) == 0 && len(mo) == 3 && !mo[types.RenterContractIndex].Value.IsZero() {
+					// the missed side need not mirror the valid side: part of what the renter gets back on a missed
+					// proof goes to the void output instead (the sums stay equal, which is all consensus asks)
+					rev.FileContract.MissedProofOutputs = append([]types.SiacoinOutput(nil), mo...)
+					mo = rev.FileContract.MissedProofOutputs
+					x := fromBig(new(big.Int).Rsh(toBig(mo[types.RenterContractIndex].Value), uint(r.IntN(4))))
+					mo[types.RenterContractIndex].Value = mo[types.RenterContractIndex].Value.Sub(x)
+					mo[2].Value = mo[2].Value.Add(x)
+					ops = append(ops, "burn-renter-missed")
+					b.Count("v1_revisions_with_renter_missed_below_valid", 1)
+				}
 				if r.IntN(6) == 0 && rev.FileContract.RevisionNumber < types.MaxRevisionNumber-3 {
 					// the revision number jumps to the end of its range (the last one is what a finalised contract carries)
 					rev.FileContract.RevisionNumber = types.MaxRevisionNumber - uint64(r.IntN(3))
